@@ -119,4 +119,13 @@ mod verif_mark_zombie {
     fn c19_reaped_head_bar_counts_wrapped_rows() {
         step(2, 0);
     }
+
+    // @harness id=C18 tier=quick timeout=1800 mem=14 checks=rust
+    // @bounds after a FAILED draw the target's last_line_count lags behind the members' frames (any value 0..=9, also 0, while the head bar's frame has 1..=3 rows): dropping the finished head bar must not panic (the row arithmetic saturates) and leaves the accounting consistent
+    #[kani::proof]
+    #[kani::unwind(6)]
+    //@STUBS std now widthascii noterm noremove
+    fn c18_reap_after_failed_draw_does_not_panic() {
+        step(2, 0);
+    }
 }
